@@ -203,3 +203,27 @@ package object
 //@ trusted
 //@ modifies nothing
 //@ ensures result != nil && fresh(result) && result.value == s
+
+// ---- C11: module attributes ------------------------------------------------------------------------------------
+// mattr(m, n): the attribute n of module m in the current state (nil when absent); mhasattr: whether it exists.
+//@ spec mhasattr(m, n) = haskey(m.builtins, n) || haskey(m.globalsIndex, n)
+//@ spec mattr(m, n) = ite(haskey(m.builtins, n), m.builtins[n], m.globals[m.globalsIndex[n]])
+
+//@ func (*Module).GetAttr
+//@ props C11
+//@ assume[recv.nonnil] m != nil
+//@ ensures[C11.getattr.found] name != "__name__" && mhasattr(m, name) ==> result1 && (haskey(m.builtins, name) ==> result0 == m.builtins[name])
+//@ assume[module.index] forallA(k, string, haskey(m.globalsIndex, k) ==> 0 <= m.globalsIndex[k] && m.globalsIndex[k] < len(m.globals))
+//@ ensures[C11.getattr.global] name != "__name__" && !haskey(m.builtins, name) && haskey(m.globalsIndex, name) ==> result1 && result0 == m.globals[m.globalsIndex[name]]
+//@ ensures[C11.getattr.absent] name != "__name__" && !mhasattr(m, name) ==> !result1 && result0 == nil
+
+// Override(name, nil) removes the attribute; Override(name, v) replaces an existing one; nothing else changes.
+//@ func (*Module).Override
+//@ props C11
+//@ assume[recv.nonnil] m != nil
+//@ assume[module.disjoint] forallA(k, string, !(haskey(m.builtins, k) && haskey(m.globalsIndex, k)))
+//@ modifies mapof(m.builtins), mapof(m.globalsIndex), elems(m.globals)
+//@ ensures[C11.override.delete] value == nil && name != "__name__" ==> !mhasattr(m, name)
+//@ ensures[C11.override.set] value != nil && name != "__name__" && old(haskey(m.builtins, name)) ==> haskey(m.builtins, name) && m.builtins[name] == value
+//@ ensures[C11.override.others] forallA(k, string, k != name ==> haskey(m.builtins, k) == old(haskey(m.builtins, k)) && haskey(m.globalsIndex, k) == old(haskey(m.globalsIndex, k)) && m.builtins[k] == old(m.builtins[k]))
+//@ ensures[C11.override.noadd] !old(mhasattr(m, name)) ==> !mhasattr(m, name)
